@@ -1290,7 +1290,7 @@ static void CodeALIGN(Word Index) {
         Byte         AlignFill = 0;
         Boolean      OK        = True;
         tSymbolFlags Flags     = eSymbolFlag_None;
-        LongInt      NewPC;
+        LargeWord    Rest;
 
         if (2 == ArgCnt) {
             AlignFill = EvalStrIntExpressionWithFlags(&ArgStr[2], Int8, &OK, &Flags);
@@ -1301,10 +1301,11 @@ static void CodeALIGN(Word Index) {
         if (OK) {
             if (mFirstPassUnknown(Flags)) {
                 WrError(ErrNum_FirstPassCalc);
+            } else if (!AlignValue) {
+                WrError(ErrNum_OverRange);
             } else {
-                NewPC = EProgCounter() + AlignValue - 1;
-                NewPC -= NewPC % AlignValue;
-                CodeLen = NewPC - EProgCounter();
+                Rest    = EProgCounter() % AlignValue;
+                CodeLen = Rest ? (LongInt)(AlignValue - Rest) : 0;
                 if (1 == ArgCnt) {
                     DontPrint = !!CodeLen;
                     BookKeeping();
